@@ -63,7 +63,28 @@ def run(tier, rng, C):
     cases = MC.build_cases(C, stacks)
     for c in cases:
         c['nontrivial'] = V.has_marker(c['layers'], '=') and V.has_shared_key(c['layers'])
+    # constants delivered through a merged reference: `cfg` is built from layers whose member k is written with
+    # any marker before it is frozen by `=k`; `copy` receives ${cfg} (whole value, or as a member) and a later layer
+    # writes copy's k.  The specification is applied to the stack with the reference written out.
+    for i in range(150 if tier == 'quick' else 4000):
+        pre = [M((rng.choice(['k', '~k', 'k', 'j']), V.plain_value(rng, 1))) for _ in range(rng.randint(0, 2))]
+        frozen = V.plain_value(rng, 1)
+        cfg_layers = pre + [M(('=k', frozen), ('o', I(i)))]
+        nest = rng.random() < 0.4
+        wr = M((rng.choice(['k', 'k', '~k', '=k', 'j']), rng.choice([S('changed'), N, V.plain_value(rng, 1)])))
+        def at(v):
+            return M(('copy', M(('inner', v)))) if nest else M(('copy', v))
+        layers = [M(('cfg', l)) for l in cfg_layers] + [at(S('${cfg}')), at(wr)]
+        inl = [M(('cfg', l)) for l in cfg_layers] + [at(l) for l in cfg_layers] + [at(wr)]
+        if rng.random() < 0.3:
+            # a later direct writer on cfg itself, after the reference was taken
+            layers.append(M(('cfg', wr)))
+            inl.append(M(('cfg', wr)))
+        cid = C.case_id('rc', i)
+        cases.append({'id': cid, 'line': V.stack_line(cid, 'value', layers), 'show': V.stack_show(layers),
+                      'clean': all(MC.clean_layer(l) for l in inl), 'layers': layers, 'nontrivial': True,
+                      'spec_line': V.stack_line(cid, 'spec', inl)})
     rule = ('exhaustive kind stacks containing a constant marker (top level and nested) + %d random stacks with =k at a random '
             'layer and depth 0-2, later writers plain/~/=/null/other-key, enclosing mapping replaced by null or override; '
-            'non-trivial = a constant marker and a key defined by >= 2 layers; plus sequences of 3-5 layers giving one nested key values of random kinds (nulls, empty containers); oracle = extracted Spec/DeepMerge.v' % n)
+            'non-trivial = a constant marker and a key defined by >= 2 layers; plus sequences of 3-5 layers giving one nested key values of random kinds (nulls, empty containers); plus constants delivered through a merged reference (${cfg} as a whole value or member, then a later writer; specification applied to the stack with the reference written out); oracle = extracted Spec/DeepMerge.v' % n)
     return C.standard_run(cases, rule, key_fn=lambda c, m, i, r: 'model-impl-differ', extra_oracle=MC.spec_oracle(C))
